@@ -280,8 +280,18 @@ def eval_calls(run, node, tbl, rng, inp, me, api):
         if k == "V" and any(f.density is None or f.density == 0 for f, q in zip(comps, qs) if q > 0):
             raise Reject("volume mixture needs densities")
         args = [x for pair in zip(comps, qs) for x in pair]
-        r = (mix_by_weight if k == "W" else mix_by_volume)(*args)
-        oracle_mix(run, comps, qs, r, k, inp, tbl, me)
+        before = [(pyside.struct_keys(f.structure), f.density, f.name) for f in comps]
+        r = (mix_by_weight if k == "W" else mix_by_volume)(*args, **({"density": 1.2345} if rng.random() < 0.3 else {}))
+        after = [(pyside.struct_keys(f.structure), f.density, f.name) for f in comps]
+        if before != after or any(r is f for f in comps):
+            run.violation("mixing changed one of the component formulas it was given (or returned it)", inp)
+        if r.density != 1.2345:
+            oracle_mix(run, comps, qs, r, k, inp, tbl, me)
+        else:
+            # (the density= keyword was given, as mix_by_* documents; it must not write into a component.)
+            # The mixture without the keyword is what the string form is compared with.
+            r = (mix_by_weight if k == "W" else mix_by_volume)(*args)
+            oracle_mix(run, comps, qs, r, k, inp, tbl, me)
         return r
     comps, qs = [], []
     for p in node[1]:
